@@ -369,6 +369,24 @@ func genLink(g *common.Gen, packets [][]byte) {
 			}
 			g.Stat("frame-payload-confusion")
 		}
+		// deep names: thousands of empty / one-byte components in a frame close to the packet size limit,
+		// token-less Data (dispatched by the hashes of all name prefixes) and Interests, bare and LP-wrapped;
+		// the whole handleIncomingFrame -> dispatch path runs under the allocation budget and the watchdog
+		if h%3 == 0 {
+			for _, shape := range [][2]int{{4000, 0}, {2800, 1}, {1000, 0}, {300, 20}} {
+				var comps []byte
+				for i := 0; i < shape[0]; i++ {
+					comps = append(comps, c13.TLV(8, r.Bytes(shape[1]))...)
+				}
+				name := c13.TLV(7, comps)
+				data := c13.TLV(6, append(append(append([]byte{}, name...), c13.TLV(0x16, c13.TLV(0x1b, []byte{0}))...), c13.TLV(0x17, []byte{})...))
+				interest := c13.TLV(5, append(append([]byte{}, name...), c13.TLV(0x0a, []byte{1, 2, 3, 4})...))
+				g.Op("frame %s", common.Hex(data))
+				g.Op("frame %s", common.Hex(interest))
+				g.Op("frame %s", common.Hex(lpFrame(nil, nil, nil, nil, data)))
+				g.Stat("frame-deep-name")
+			}
+		}
 		nOps := r.Range(8, 30)
 		for k := 0; k < nOps; k++ {
 			pkt := common.Pick(r, inner)
